@@ -164,7 +164,8 @@ Fixpoint nodupZb (l : list Z) : bool :=
 Definition c08case := (Z * Z * list pop * list (list nat) * list Z * list Z * option Z)%type.
 
 (* tags: 1 pool (routes with costs, as a set) differs; 2 a depot self-arc exists; 3 capacity could bind
-   (a non-zero demand, or initial loading outside [0, cap]); 4 depot window does not open at 0;
+   (the test of capacity_free_nonneg_demandsb fails: a negative demand, initial loading above the capacity or below the sum
+   of all demands); 4 depot window does not open at 0;
    5 a customer-to-customer travel time is not positive; 6 the grid is not duplicate-free / lacks 0 or a
    service time of a valid route; 7 optimum of the model pool differs from the reference optimum *)
 Definition check_c08case (c : c08case) : list nat :=
@@ -178,7 +179,7 @@ Definition check_c08case (c : c08case) : list nat :=
              forallb (fun rc => existsb (fun mc => list_eqb Nat.eqb (fst rc) (fst mc) && (snd rc =? snd mc)) mpool)
                      ipool) ++
       chk 2 (negb (dict_mem (O, O) (arcs g))) ++
-      chk 3 (forallb (fun n => ndemand n =? 0) (nodes g) && (0 <=? init) && (init <=? cap)) ++
+      chk 3 (forallb (fun n => 0 <=? ndemand n) (nodes g) && (init <=? cap) && (sumZ (map ndemand (nodes g)) <=? init)) ++
       chk 4 (nlo (node_at g O) =? 0) ++
       chk 5 (forallb (fun kv : (nat * nat) * arc =>
                         Nat.eqb (fst (fst kv)) 0 || Nat.eqb (snd (fst kv)) 0 || (0 <? att (snd kv))) (arcs g)) ++
